@@ -877,6 +877,30 @@ def replay_c18(d, case):
         sys.argv = old
 
 
+def replay_c14(d, case):
+    exp = case['expected']
+    env = {'IN': d, 'OUT': os.path.join(d, 'out'), 'np': np, 'os': os}
+    try:
+        exec(case['run'], env)
+    except Exception as e:
+        return True, 'the pipeline raised %s: %s' % (type(e).__name__, e)
+    import contextlib, io
+    from amr_kitchen.taste.taste import Taster
+    for st in exp['steps']:
+        out = os.path.join(d, st['out'])
+        try:
+            P = read_real_plotfile(out)
+        except RealReadError as e:
+            return True, '%s is not a well-formed plotfile: %s' % (st['out'], e)
+        msg = compare_real_tree(P, st['tree'], 'close')
+        if msg:
+            return True, '%s: %s' % (st['out'], msg)
+        with contextlib.redirect_stdout(io.StringIO()), contextlib.redirect_stderr(io.StringIO()):
+            if not bool(Taster(out, nofail=True)):
+                return True, 'taste rejects %s' % st['out']
+    return False, 'every step equals the composed pure operations'
+
+
 def replay_c19(d, case):
     from amr_kitchen import PlotfileCooker
     pck = PlotfileCooker(os.path.join(d, 'plt'))
@@ -910,6 +934,8 @@ def main(d):
     with open(os.path.join(d, 'case.json')) as f:
         case = json.load(f)
     h = case['handler']
+    if h == 'c14':
+        HANDLERS['c14'] = replay_c14
     if h == 'c13':
         from harness import c13
         HANDLERS['c13'] = c13.replay
